@@ -114,6 +114,11 @@ def random_specs(rng, n):
         specs.append({"name": name, "module": "verif_c19_m%d_%d" % (_MODULE_SEQ[0], rng.randrange(1000)), "js": rng.choice(JS_CHOICES),
                       "css": rng.choice(CSS_CHOICES), "hooks": rng.random() < 0.6,
                       "base": rng.randrange(i) if i and rng.random() < 0.25 else None})
+    # always one pair of classes with the same NAME in different modules (distinct hashes) and different code
+    a, b = rng.sample(range(n), 2)
+    specs[b]["name"] = specs[a]["name"]
+    specs[a].update(js="first()", css=rng.choice([".first{}", None]))
+    specs[b].update(js=" second() ", css=rng.choice([".second{}", " .2{} "]), base=None)
     return specs
 
 
@@ -196,6 +201,16 @@ def pool_code(pool, cls, kind):
 CTYPES = {"js": "text/javascript", "css": "text/css"}
 
 
+def key_of(cls, kind, ih):
+    """Cache entry of a script, as the property record names it: `__components:<hash>:<kind>[:<input>]`."""
+    return "__components:%s:%s" % (cls._class_hash, kind) + (":" + ih if ih else "")
+
+
+def path_of(cls, kind, ih):
+    """PATH_INFO of the endpoint URL of a script (`/components/cache/<hash>[.<input>].<kind>`)."""
+    return PREFIX + cls._class_hash + "." + (ih + "." if ih else "") + kind
+
+
 class Runner:
     """Runs ops one by one on the implementation (fresh media cache), with the direct oracle.
     outs: per op ("unit",) | ("urls", js, css) | ("err", classname) | ("resp", status, ctype, body)
@@ -209,25 +224,91 @@ class Runner:
         self.client = Client(raise_request_exception=False)
         self.ops, self.outs, self.fails = [], [], []
         self.bodies = []        # (html, insts) of body ops
-        self.live = {}          # raw url -> (cls, kind, ih, body) announced since the last eviction
+        self.live = {}          # raw url -> (cls, kind, ih, body): announced, and ITS cache entry not evicted since
+        self.entitled = {}      # PATH_INFO -> cache key: scripts of instances rendered (atomic or template render) whose
+        #                         entry was not evicted since - what `rendered_instance_is_served` says must be served
+        self.stale = {}         # raw url announced by a split fragment render_dependencies after its entry was evicted
         self.announced = []     # every raw url announced so far
-        self.stats = {"evicted": 0, "announced_after_evict": 0, "ok200": 0, "renders": 0}
+        self.stats = {"evicted": 0, "announced_after_evict": 0, "ok200": 0, "renders": 0, "same_class_rerendered_after_evict": 0,
+                      "served_after_other_entry_evicted": 0, "split_stale_announced": 0, "split_stale_unserved": 0, "split_stale_document_error": 0}
         self.evicted_before = False
+        self.survivors = set()             # live urls that outlived the eviction of ANOTHER entry
+        self.rendered_classes = set()      # classes rendered so far
+        self.evicted_classes = set()       # classes one of whose entries was evicted after a render of the class
 
-    def announce(self, i, js, css, insts):
+    def entitlements(self, insts):
+        """(class, kind, input hash or None) scripts the rendered instances entitle a page to announce (independent reading
+        of the statement: the component's own script of a kind it has code for + the script of this instance's input data)."""
+        pool, out = self.pool, set()
+        for ci, v, w in insts:
+            if ci < 0:
+                continue
+            cls = pool.classes[ci]
+            for kind, data in (("js", {"v": v} if v else None), ("css", {"w": w} if w else None)):
+                code = pool.codes[ci][kind]
+                if code is None or not code.strip():
+                    continue
+                out.add((cls, kind, None))
+                if data is not None and pool.hooks[ci]:
+                    out.add((cls, kind, input_hash(data)))
+        return out
+
+    def note_rendered(self, insts):
+        """Instances were rendered (their scripts cached before anything is emitted)."""
+        for cls, kind, ih in self.entitlements(insts):
+            self.entitled[path_of(cls, kind, ih)] = key_of(cls, kind, ih)
+        for ci, _, _ in insts:
+            if ci >= 0:
+                cls = self.pool.classes[ci]
+                if cls in self.evicted_classes:
+                    self.stats["same_class_rerendered_after_evict"] += 1
+                    self.evicted_classes.discard(cls)
+                self.rendered_classes.add(cls)
+
+    def announce(self, i, js, css, insts, split_fragment=False):
         pool = self.pool
-        classes = set(pool.classes[ci] for ci, _, _ in insts if ci >= 0)
+        ent = self.entitlements(insts)
         for kind, us in (("js", js), ("css", css)):
             for u in us:
                 if u not in self.announced:
                     self.announced.append(u)
-                e = expected_for(pool, urllib.parse.unquote(u))
-                if e is None or e[1] != kind or e[0] not in classes:
-                    self.fails.append(("c19-announced-foreign-url", "announced URL %r does not name a rendered component with %s code" % (u, kind), i))
+                path = urllib.parse.unquote(u)
+                e = expected_for(pool, path)
+                if e is None or e[1] != kind or (e[0], e[1], e[2]) not in ent:
+                    self.fails.append(("c19-announced-foreign-url", "announced URL %r is not the %s script of a component instance of this render" % (u, kind), i))
                     continue
+                if split_fragment and path not in self.entitled:
+                    # markers rendered, entry evicted, THEN render_dependencies(type="fragment"): the eviction happened during
+                    # the (split) render, not before it - outside the statement; reported, never an alarm
+                    self.stats["split_stale_announced"] += 1
+                    self.stale[u] = e
+                    self.live.pop(u, None)
+                    continue
+                self.stale.pop(u, None)
                 self.live[u] = e
                 if self.evicted_before:
                     self.stats["announced_after_evict"] += 1
+
+    def evicted(self, keys, removed_something):
+        """cache.delete(key) was called: only the URLs of exactly that entry stop being owed (None = clear(): all of them)."""
+        if keys is None:
+            self.live.clear()
+            self.entitled.clear()
+            self.survivors.clear()
+        else:
+            keys = set(keys)
+            for u, e in list(self.live.items()):
+                if key_of(e[0], e[1], e[2]) in keys:
+                    del self.live[u]
+                    self.survivors.discard(u)
+            for p, k in list(self.entitled.items()):
+                if k in keys:
+                    del self.entitled[p]
+            if removed_something:
+                self.survivors.update(self.live)
+        for cls in self.rendered_classes:
+            if removed_something and (keys is None or any(k.startswith("__components:%s:" % cls._class_hash) for k in keys)):
+                self.evicted_classes.add(cls)
 
     def request(self, i, method, path_info, raw=None):
         pool, fails = self.pool, self.fails
@@ -260,6 +341,11 @@ class Runner:
             if st != 200 or body != e[3] or ctype != CTYPES[e[1]]:
                 fails.append(("c19-announced-url-not-served", "announced URL %r answered %d %r %r, expected 200 %r %r"
                               % (raw, st, ctype, body[:80], CTYPES[e[1]], e[3][:80]), i))
+            elif raw in self.survivors:
+                self.stats["served_after_other_entry_evicted"] += 1
+        elif method == "GET" and raw is not None and raw in self.stale and st == 404:
+            self.stats["split_stale_unserved"] += 1
+            del self.stale[raw]
         return ("resp", st, ctype, body)
 
     def expects_wrap_error(self, insts):
@@ -290,6 +376,7 @@ class Runner:
                 out = ("err", type(e).__name__)
             else:
                 js, css = extract_urls(html, mode)
+                self.note_rendered(insts)
                 self.announce(i, js, css, insts)
                 out = ("urls", js, css)
         elif kind == "body":
@@ -301,6 +388,7 @@ class Runner:
             else:
                 html = Template(tag_src(pool, insts)).render(Context({}))
             self.bodies.append((html, insts))
+            self.note_rendered(insts)
             out = ("unit",)
         elif kind == "deps":
             _, mode, idxs, ghost, variant = op
@@ -321,32 +409,31 @@ class Runner:
                 else:
                     html = render_dependencies(doc, mode)
             except Exception as e:  # noqa
+                insts = [x for j in idxs for x in self.bodies[j][1]]
+                if mode == "document" and isinstance(e, RuntimeError) and any(path_of(*t) not in self.entitled for t in self.entitlements(insts)):
+                    self.stats["split_stale_document_error"] += 1     # same split flow, document mode: refuses instead of announcing
                 out = ("err", type(e).__name__)
             else:
                 js, css = extract_urls(html, mode)
                 insts = [x for j in idxs for x in self.bodies[j][1]]
-                if mode == "document":
-                    # document mode reads the cache itself: whatever it announces must be served
-                    self.announce(i, js, css, insts)
-                else:
-                    for u in js + css:
-                        if u not in self.announced:
-                            self.announced.append(u)
+                # document mode reads the cache itself: whatever it marks as loaded must be served (until that entry is evicted);
+                # fragment mode: owed for every instance whose entry was not evicted since the instance was rendered
+                self.announce(i, js, css, insts, split_fragment=(mode == "fragment"))
                 out = ("urls", js, css)
         elif kind == "evict":
-            before = len(cache_keys())
+            before = cache_keys()
             self.cache.delete(op[1])
-            n = before - len(cache_keys())
-            self.stats["evicted"] += n
-            self.evicted_before = self.evicted_before or n > 0
-            self.live.clear()
+            gone = set(before) - set(cache_keys())
+            self.stats["evicted"] += len(gone)
+            self.evicted_before = self.evicted_before or bool(gone)
+            self.evicted([op[1]], bool(gone))
             out = ("unit",)
         elif kind == "clear":
-            n = len(cache_keys())
+            before = cache_keys()
             self.cache.clear()
-            self.stats["evicted"] += n
-            self.evicted_before = self.evicted_before or n > 0
-            self.live.clear()
+            self.stats["evicted"] += len(before)
+            self.evicted_before = self.evicted_before or bool(before)
+            self.evicted(None, bool(before))
             out = ("unit",)
         elif kind == "get":
             out = self.request(i, op[1], op[2], op[3] if len(op) > 3 else None)
@@ -528,6 +615,7 @@ def random_history(pool, rng, length):
 SMALL_SPECS = [
     {"name": "Alpha", "module": "verif_c19_small", "js": " a() ", "css": ".a{}", "hooks": True},
     {"name": "Beta", "module": "verif_c19_small", "js": "b()", "css": None, "hooks": False},
+    {"name": "Gamma", "module": "verif_c19_small", "js": None, "css": " .g{}\n", "hooks": True},
 ]
 
 
@@ -535,8 +623,8 @@ def small_alphabet():
     return [
         ("render", "document", [(0, None, None)], "headbody"),
         ("render", "fragment", [(0, 1, 1)], "headbody"),
-        ("render", "fragment", [(1, None, None), (0, 2, None)], "placeholders"),
-        ("body", [(0, 1, None), (1, None, None)], "template"),
+        ("render", "fragment", [(1, None, None), (0, 2, None), (2, None, 1)], "placeholders"),
+        ("body", [(0, 1, None), (1, None, None), (2, None, None)], "template"),
         ("deps", "fragment", "all", False, "headbody"),
         ("deps", "document", "all", False, "middleware"),
         ("clear",),
@@ -546,11 +634,12 @@ def small_alphabet():
 
 
 def small_concretise(pool, seq):
-    a, b = pool.classes
+    a, b, g = pool.classes
     ih = input_hash({"v": 1})
     probes = [PREFIX + a._class_hash + ".js", PREFIX + a._class_hash + ".css", PREFIX + a._class_hash + "." + ih + ".js",
               PREFIX + b._class_hash + ".js", PREFIX + b._class_hash + ".css", PREFIX + a._class_hash + ".js:" + ih,
-              PREFIX + a._class_hash + "." + input_hash({"w": 1}) + ".css"]
+              PREFIX + a._class_hash + "." + input_hash({"w": 1}) + ".css", PREFIX + g._class_hash + ".css",
+              PREFIX + g._class_hash + "." + input_hash({"w": 1}) + ".css", PREFIX + g._class_hash + ".js"]
     ops, nb = [], 0
     for o in seq:
         if o[0] == "deps":
@@ -561,7 +650,7 @@ def small_concretise(pool, seq):
         elif o[0] == "evict":
             ops.append(("evict", "__components:%s:js" % a._class_hash))
         elif o[0] == "probe":
-            ops += [("get", "GET", p) for p in probes] + [("get", "POST", probes[0])]
+            ops += [("get", "GET", p) for p in probes] + [("get", "POST", probes[0]), ("get", "HEAD", probes[0])]
         else:
             ops.append(o)
             if o[0] == "body":
@@ -576,6 +665,24 @@ CORPUS = [
     # (the witness of the fixed defect c19-kind-colon-alias lives in corpus/C19/kind-colon-alias.json)
     {"name": "clear-then-rerender", "specs": [{"name": "Re", "module": "verif_c19_corpus", "js": " r() ", "css": ".r{}", "hooks": False}],
      "ops": [["render", "document", [[0, None, None]], "headbody"], ["clear"], ["render", "fragment", [[0, None, None]], "headbody"], ["getlive"]]},
+    # seed C19a (process-local memo never invalidated): the SAME class object rendered before and after a clear, fragment after it
+    {"name": "fragment-clear-fragment-same-class", "specs": [{"name": "Fr", "module": "verif_c19_corpus", "js": "f()", "css": " .f{} ", "hooks": True}],
+     "ops": [["render", "fragment", [[0, 1, 2]], "placeholders"], ["getlive"], ["clear"], ["render", "fragment", [[0, 1, 2]], "headbody"], ["getlive"],
+             ["body", [[0, 2, None]], "single"], ["clear"], ["render", "fragment", [[0, 2, None]], "headbody"], ["getlive"]]},
+    # one entry deleted: the other URLs of the earlier render stay owed; the re-render restores the deleted one
+    {"name": "delete-one-entry", "specs": [{"name": "De", "module": "verif_c19_corpus", "js": "d()", "css": ".d{}", "hooks": True}],
+     "ops": [["render", "fragment", [[0, 1, 1]], "headbody"], ["evict", "@KEY0:js"], ["getlive"], ["evict", "@KEY0:css:@W1"], ["getlive"],
+             ["render", "fragment", [[0, 1, 1]], "headbody"], ["getlive"], ["evict", "@KEY0:css"], ["render", "document", [[0, None, None]], "headbody"], ["getlive"]]},
+    # two classes with the same NAME in different modules (distinct hashes): each is served its own code
+    {"name": "same-name-two-modules", "specs": [{"name": "Twin", "module": "verif_c19_corpus_m1", "js": "one()", "css": None, "hooks": False},
+                                                {"name": "Twin", "module": "verif_c19_corpus_m2", "js": "two()", "css": ".two{}", "hooks": False}],
+     "ops": [["render", "fragment", [[0, None, None]], "headbody"], ["render", "fragment", [[1, None, None]], "headbody"], ["getlive"],
+             ["clear"], ["render", "document", [[1, None, None], [0, None, None]], "headbody"], ["getlive"]]},
+    # a class with CSS only / JS only
+    {"name": "css-only-js-only", "specs": [{"name": "OnlyCss", "module": "verif_c19_corpus", "js": None, "css": ".o{}", "hooks": True},
+                                           {"name": "OnlyJs", "module": "verif_c19_corpus", "js": "o()", "css": "  ", "hooks": True}],
+     "ops": [["render", "fragment", [[0, 1, 1], [1, 1, 1]], "headbody"], ["getlive"], ["clear"], ["body", [[0, None, 2], [1, 2, None]], "template"],
+             ["deps", "fragment", [0], False, "headbody"], ["getlive"], ["deps", "document", [0], False, "middleware"], ["getlive"]]},
 ]
 
 
@@ -600,6 +707,11 @@ def norm_ops(pool, ops):
             o[2] = [tuple(x) for x in o[2]]
         if o[0] == "body":
             o[1] = [tuple(x) for x in o[1]]
+        if o[0] == "evict" and isinstance(o[1], str) and o[1].startswith("@KEY"):
+            m = re.match(r"@KEY(\d+)(.*)$", o[1], flags=re.S)
+            o[1] = "__components:" + pool.classes[int(m.group(1))]._class_hash + m.group(2).replace("@W1", input_hash({"w": 1})).replace("@V1", input_hash({"v": 1}))
+        if o[0] == "deps":
+            o[2] = list(o[2])
         if o[0] == "get" and isinstance(o[2], str) and o[2].startswith("@HASH"):
             m = re.match(r"@HASH(\d+)(.*)$", o[2], flags=re.S)
             o[2] = PREFIX + pool.classes[int(m.group(1))]._class_hash + m.group(2)
@@ -614,7 +726,10 @@ def run_case(chk, pool, macro_ops, kind, terms, cases, rng):
     replay = {"kind": "history", "specs": pool.specs, "ops": [list(o) for o in ops]}
     for trig, what, i in R.fails:
         chk.fail(trig, what, dict(replay, failing_op=i, outs=[list(o) for o in outs]))
-    nontriv = stats["evicted"] > 0 and stats["announced_after_evict"] > 0 and stats["ok200"] > 0
+    nontriv = stats["same_class_rerendered_after_evict"] > 0 and stats["announced_after_evict"] > 0 and stats["ok200"] > 0
+    agg = chk.extra.setdefault("oracle_observations", {})
+    for k, v in stats.items():
+        agg[k] = agg.get(k, 0) + v
     chk.count((pool.specs, ops), nontriv, kind=kind,
               sample={"classes": [(s["name"], s["js"], s["css"], s.get("base")) for s in pool.specs], "ops": [list(o) for o in ops][:12]} if nontriv and kind == "random" else None)
     terms.append(hist_term(pool, ops, outs, keys))
@@ -663,6 +778,14 @@ def run(tier, seed):
     if not isinstance(media_cache(), LocMemCache):
         raise C.HarnessError("media cache is not the default LocMemCache")
 
+    import time
+    t_phase = [chk.t0]
+    phases = chk.extra.setdefault("phase_seconds", {})
+
+    def phase(name):
+        phases[name] = round(time.time() - t_phase[0], 1)
+        t_phase[0] = time.time()
+    phase("prove")
     pools = []
     terms, cases = [], []
     # ---- 0. corpus (direct oracle first) ----
@@ -681,15 +804,17 @@ def run(tier, seed):
                 continue
             run_case(chk, small, ops, "exh%d" % L, terms, cases, rng)
     # ---- 1b. random histories over random class tables ----
-    npools = 12 if thorough else 5
-    per_pool = 500 if thorough else 160
+    npools = 12 if thorough else 8
+    per_pool = 500 if thorough else 100
     for pi in range(npools):
-        pool = Pool(random_specs(rng, rng.randint(2, 7)))
+        pool = Pool(random_specs(rng, rng.randint(3, 7)))
         pools.append(pool)
         for _ in range(per_pool):
             run_case(chk, pool, random_history(pool, rng, rng.randint(3, 10)), "random", terms, cases, rng)
+    phase("histories-implementation")
     defs = GHOST_DEF + "\n" + "\n".join(p.coq_defs() for p in pools)
-    bad = C.coq_eval_cases("C19", "hist", IMPORTS, "hist_case", "check_hist", terms, shard=150, extra_defs=defs)
+    bad = C.coq_eval_cases("C19", "hist", IMPORTS, "hist_case", "check_hist", terms, shard=max(40, -(-len(terms) // 16)) if not thorough else 150, extra_defs=defs)
+    phase("histories-coq")
     for i in bad[:20]:
         pool, ops, outs, keys = cases[i]
         chk.disagree("Serve model != implementation on a render/evict/request history",
@@ -700,7 +825,7 @@ def run(tier, seed):
     rterms, rcases = [], []
     alpha = ["a", ".", "/", ":", "js"]
     paths = []
-    for L in range(0, (7 if thorough else 6) + 1):
+    for L in range(0, (7 if thorough else 5) + 1):
         for t in itertools.product(alpha, repeat=L):
             paths.append(PREFIX + "".join(t))
     for p in pools[-1:]:
@@ -719,7 +844,8 @@ def run(tier, seed):
         chk.count(("route", p), res is not None and res[2] is not None and p.count(".") > 2, kind="route")
         rterms.append("(%s, %s)" % (cstr(p), copt(res, lambda r: "(%s, %s, %s)" % (cstr(r[0]), cstr(r[1]), copt(r[2], cstr)))))
         rcases.append((p, res))
-    bad = C.coq_eval_cases("C19", "route", IMPORTS, "route_case", "check_route", rterms, shard=3000)
+    bad = C.coq_eval_cases("C19", "route", IMPORTS, "route_case", "check_route", rterms, shard=3000 if thorough else max(100, -(-len(rterms) // 16)))
+    phase("routes")
     for i in bad[:20]:
         chk.disagree("route matcher != django.urls.resolve", {"kind": "route", "path": rcases[i][0], "impl": rcases[i][1]})
 
@@ -745,34 +871,51 @@ def run(tier, seed):
     chk.count(("spaces",), True, kind="isspace-table")
     if bad:
         chk.disagree("py_isspace != str.isspace on code points < 70000", {"kind": "spaces", "impl": spaces})
+    phase("strip-isspace")
     chk.extra["class_tables"] = {"tables": len(pools), "classes": sum(len(p.classes) for p in pools),
                                  "subclasses": sum(1 for p in pools for sp in p.specs if sp.get("base") is not None),
                                  "non_ascii_names": sum(1 for p in pools for sp in p.specs if not sp["name"].isascii())}
     for p in pools:
         p.close()
     dc.component_media_cache = None
+    obs = chk.extra.get("oracle_observations", {})
+    chk.extra["outside_statement_split_flow"] = {
+        "what": "template render, THEN an eviction, THEN render_dependencies over the stale markers: the eviction happens during the (split) render, "
+                "not before it - outside the statement by the lead's decision; observed and compared with the model, never an alarm "
+                "(Props/C19.v Example stale_markers_in_fragment_mode_are_announced_unserved)",
+        "fragment_urls_announced_for_an_evicted_entry": obs.get("split_stale_announced", 0),
+        "of_these_fetched_and_answered_404": obs.get("split_stale_unserved", 0),
+        "document_mode_refused_with_RuntimeError": obs.get("split_stale_document_error", 0)}
     chk.assumptions = [
         "media cache = the default LocMemCache (no timeout, no size limit): entries disappear only through delete()/clear(); "
         "no eviction happens inside a render or between the render and the request (a size-bounded or expiring user-configured cache can evict there)",
-        "component classes stay alive (comp_hash_mapping is weak) and class identity = import path: two classes with the same module and name share "
-        "a hash (the generator uses distinct import paths; 24-bit md5 prefix assumed collision-free on them)",
-        "class names are Python identifiers (no '.', '/', ':'), input hashes are md5 hex prefixes",
+        "wf_table, first half (hypothesis of every history theorem): component classes have DISTINCT hashes = distinct import paths (module + name); two "
+        "classes with the same module and name share a hash and a cache entry and the second is served the first's code - without this hypothesis the main "
+        "theorem is false (Props/C19.v Example emitted_url_served_without_distinct_hashes_refuted); the generator only builds classes with distinct import "
+        "paths (same NAME in different modules is generated in every table); the 24-bit md5 prefix is assumed collision-free on them",
+        "component classes stay alive between render and request: comp_hash_mapping holds classes weakly, a class that was garbage-collected after the render "
+        "makes its announced URL answer 404; only the alive case is tested (the class tables keep strong references)",
+        "wf_table, second half / wf_inst: class names are Python identifiers (no '.', '/', ':'), input hashes are md5 hex prefixes",
         "percent-encoding by reverse() and decoding by the WSGI layer are inverse (the model speaks about PATH_INFO); md5/json of the input data not modelled",
-        "the split flow (markers rendered, cache entry evicted, THEN render_dependencies(type='fragment')) announces URLs without looking at the cache; "
-        "it is outside the statement (eviction after the component's own render) and only compared with the model",
+        "the split flow with an eviction in the middle (markers rendered, cache entry evicted, THEN render_dependencies) is outside the statement "
+        "('evictions preceded that render'): reported under coverage.outside_statement_split_flow, compared with the model only; without an eviction of that "
+        "entry in between, the URLs a split render announces are owed and checked by the direct oracle like those of an atomic render",
     ]
     return chk.finish(
         rule="histories: every sequence up to length %d over a 9-letter alphabet (document/fragment renders, template render, "
-             "render_dependencies in both modes, clear, delete, probe requests) on a fixed 2-class table, plus %d seeded random histories "
-             "(3-10 macro-ops, 2-7 generated classes per table with js/css in {None, empty, blank, padded with ASCII/Unicode whitespace, non-ASCII, "
+             "render_dependencies in both modes, clear, delete, probe requests) on a fixed 3-class table (js+css, js only, css only), plus %d seeded random histories "
+             "(3-10 macro-ops, 3-7 generated classes per table, always two with the same name in different modules, js/css in {None, empty, blank, padded with ASCII/Unicode whitespace, non-ASCII, "
              "end-tag}, non-ASCII and duplicate class names, input-hash hooks) with adaptive requests: every announced URL (raw, as emitted), other "
              "methods, and adversarial paths from valid/invalid hashes, kinds, input hashes incl. the key separator ':'; routing: all strings up to "
              "length %d over {a . / : js} after the endpoint prefix + adversarial paths; strip: 4-letter exhaustive to length 3 + random. "
-             "Non-trivial history = an eviction removed a live key, a later render announced a URL, and a request answered 200. Distinct = distinct (table, ops)."
-             % (4 if thorough else 3, npools * per_pool, 7 if thorough else 6),
+             "Non-trivial history = an entry of a rendered class was evicted, the SAME class object was rendered again later and the render announced a URL, "
+             "and a request answered 200. Distinct = distinct (table, ops)."
+             % (4 if thorough else 3, npools * per_pool, 7 if thorough else 5),
         explanation="Theorems of Props/C19.v re-checked by coqc; the model is run by vm_compute inside Coq on every history and compared with the "
                     "implementation op by op (announced URL multisets, exception class, status / Content-Type / body) and on the final cache key set; "
-                    "the direct oracle fetches every announced URL through django.test.Client and classifies every response.",
+                    "the direct oracle fetches every announced URL through django.test.Client and classifies every response; a URL stays owed "
+                    "(200, own code, content type) until exactly ITS cache entry is deleted (other deletions do not release it), for atomic renders, "
+                    "document-mode render_dependencies, and fragment-mode render_dependencies over instances whose entry was not evicted since they were rendered.",
         extra_trusted=["modelled, not verified: django.urls resolver/reverse (route matcher differentially tested against resolve() on every run), "
                        "LocMemCache, django.test.Client/WSGI path decoding, str.strip (differentially tested), hashlib.md5/json.dumps for input hashes",
                        "harness/gen_c19.py (routes, mount point, content types, key/URL format samples -> coq/Gen/C19.v)"])
